@@ -366,4 +366,163 @@ theorem C10_inplace_form_dependent :
   decide
 
 end negative
+
+/-! ## What the harness enforces since: verbatim metadata and names, options on both sides, readers, file names -/
+section verbatim
+variable {F Fl : Type}
+
+/-- **C10 (model directory verbatim).**  Whatever string was passed as `model_dir` (relative, with a
+    trailing slash, with `..` — no normalisation anywhere): if the header state loads at all, the
+    directory and the filters read back are the ones written; and the header frame `fit()` writes is
+    the fitter's metadata itself, once, so every record of the file carries that same string. -/
+theorem C10_model_dir_verbatim (isLen isApm : String → Bool) (m m' : Meta F Fl)
+    (h : Meta.setstate isLen isApm m.getstate = .ok m') :
+    m'.modelDir = m.modelDir ∧ m'.filters = m.filters := by
+  simp only [Meta.setstate, Meta.getstate] at h
+  cases hl : Extinction.setstate isLen isApm m.law.getstate with
+  | error e => rw [hl] at h; cases h
+  | ok l =>
+    rw [hl] at h
+    simp only [Except.ok.injEq] at h
+    subst h
+    exact ⟨rfl, rfl⟩
+
+/-- every header frame of a fit file is the metadata of the fitter that wrote it (for every `Hdr`, in
+    particular `Meta` with any `modelDir` string) -/
+theorem C10_meta_verbatim {L Src Hdr Rec : Type} [DecidableEq Hdr] (c : FitCfg L Src Hdr Rec) (lines : List L)
+    (fs : List (Frame Hdr Rec)) (h : fitMany c lines = .ok fs) :
+    ∀ h', Frame.hdr h' ∈ fs → h' = c.hdr := by
+  rw [C10_records] at h
+  cases hq : parsePrefix c.parse lines with
+  | error e => rw [hq] at h; cases h
+  | ok ss =>
+    rw [hq] at h
+    simp only [Except.map, Except.ok.injEq] at h
+    subst h
+    intro h' hm
+    generalize (List.map _ (List.filter _ ss)) = rs at hm
+    cases rs with
+    | nil => simp [framesOf] at hm
+    | cons r rs =>
+      simp only [framesOf, List.mem_cons, Frame.hdr.injEq, List.mem_map] at hm
+      rcases hm with hm | hm | ⟨_, _, hm⟩
+      · exact hm
+      · cases hm
+      · cases hm
+
+/-- **C10 (model names verbatim).**  `__setstate__ ∘ __getstate__` returns the list of model names it
+    was given — strings of ANY length, no truncation to the 30 characters of `MODEL_NAME` — together
+    with the other per-fit fields. -/
+theorem C10_names_verbatim (c c' : FitCore F) (h : FitCore.setstate c.getstate = .ok c') :
+    c'.modelName = c.modelName ∧ c'.modelId = c.modelId ∧ c'.chi2 = c.chi2 ∧ c'.av = c.av ∧ c'.sc = c.sc ∧
+    c'.modelFluxes = c.modelFluxes := by
+  obtain ⟨s, av, sc, chi2, mid, mn, mf⟩ := c
+  simp only [FitCore.setstate, FitCore.getstate, getKey, String.reduceEq, if_true, if_false] at h
+  cases hs : Source.setstate s.getstate with
+  | error e => cases mf <;> simp [hs] at h
+  | ok s' =>
+    cases mf with
+    | none =>
+      simp only [hs, Except.ok.injEq] at h
+      subst h; exact ⟨rfl, rfl, rfl, rfl, rfl, rfl⟩
+    | some m =>
+      simp only [hs, Except.ok.injEq] at h
+      subst h; exact ⟨rfl, rfl, rfl, rfl, rfl, rfl⟩
+
+end verbatim
+
+section options
+variable {L Src Hdr Rec : Type} [DecidableEq Hdr]
+
+/-- the options that `fit()` forwards to the `Fitter` it builds / applies itself -/
+structure FitOpts where
+  memmap : Bool          -- `use_memmap` of the Fitter (float32 model fluxes for version-2 packages)
+  conv : Bool            -- `output_convolved`
+  deriving DecidableEq, Repr
+
+/-- `fit()` run with options `o`, where `fitWith mm` is the object interface `Fitter(use_memmap=mm).fit` -/
+def cfgWith (parse : L → Except Err Src) (nData : Src → Nat) (fitWith : Bool → Src → Rec)
+    (dropFluxes keepSel : Rec → Rec) (hdr : Hdr) (nMin : Int) (o : FitOpts) : FitCfg L Src Hdr Rec :=
+  ⟨parse, nData, fitWith o.memmap, dropFluxes, keepSel, hdr, nMin, o.conv⟩
+
+/-- **C10 (same options on both sides).**  The records `fit()` writes under options `o` are the
+    object-interface results under THE SAME `o` (same `use_memmap`, predicted fluxes dropped iff not
+    `output_convolved`), selector applied: `o` occurs on both sides, so a `fit()` that built its Fitter
+    with other options than the caller's Fitter is a different right-hand side. -/
+theorem C10_same_options (parse : L → Except Err Src) (nData : Src → Nat) (fitWith : Bool → Src → Rec)
+    (dropFluxes keepSel : Rec → Rec) (hdr : Hdr) (nMin : Int) (o : FitOpts) (lines : List L) :
+    fitMany (cfgWith parse nData fitWith dropFluxes keepSel hdr nMin o) lines =
+      (parsePrefix parse lines).map (fun ss => framesOf hdr
+        ((ss.filter (fun s => decide (nMin ≤ (nData s : Int)))).map
+          (fun s => keepSel (if o.conv then fitWith o.memmap s else dropFluxes (fitWith o.memmap s))))) := by
+  rw [C10_records]; rfl
+
+end options
+
+section readers
+variable {X Sel Thr V Pk : Type}
+
+/-- **C10 (frame condition for every reader).**  Whatever a consumer computes and prints from the
+    (cut) record — `view` is ARBITRARY: log or linear axes, `additional=` columns, any parameter, any
+    file format —, whatever its routing decision (`isGood`: `chi`, `cpd`, both, given by keyword or by
+    position) and however its selector counts (`nKeep`): as long as it does what the repo's consumers
+    do (iterate, `keep`, read), the caller's objects and arrays are untouched after every sequence of
+    calls on every input form. -/
+theorem C10_readers_frame (nKeep : Sel → RecV X → Nat) (view : Op Sel Thr Pk → RecV X → V)
+    (isGood : Thr → RecV X → Except Err Bool) (poke : Pk → X → X)
+    (calls : List (Op Sel Thr Pk × Input X)) (st0 : Store X) (hc : ∀ c ∈ calls, c.1.noInplace = true) :
+    (∀ r, r < freshRef st0.objs →
+      lookupRef r (run ⟨nKeep, view, isGood, poke⟩ .copy st0 calls).1.objs = lookupRef r st0.objs) ∧
+    (∀ a, a < freshRef st0.cells →
+      lookupRef a (run ⟨nKeep, view, isGood, poke⟩ .copy st0 calls).1.cells = lookupRef a st0.cells) :=
+  let h := C10_no_mutation ⟨nKeep, view, isGood, poke⟩ calls st0 hc
+  ⟨h.1, h.2.1⟩
+
+end readers
+
+section filenames
+
+/-- `extract_parameters` / `plot_params_*` / `plot`: `output_prefix + info.source.name + output_suffix`
+    (resp. `"%s/%s.%s" % (output_dir, name, format)`): the name enters the file name verbatim -/
+def fileNameOf (pre suf name : List Char) : List Char := pre ++ name ++ suf
+
+/-- **C10 (file names).**  The per-source file name is the name itself between a fixed prefix and
+    suffix — no character is replaced (`:` `?` `*` `"` `<` `>` `|` `\` included) — so distinct source
+    names give distinct files, and the name can be read off the file name. -/
+theorem C10_file_name_injective (pre suf a b : List Char) (h : fileNameOf pre suf a = fileNameOf pre suf b) :
+    a = b := by
+  simp only [fileNameOf, List.append_assoc] at h
+  exact List.append_cancel_right (List.append_cancel_left h)
+
+end filenames
+
+section examples2
+set_option synthInstance.maxSize 1024
+
+-- a relative, non-normalised model directory and a 45-character model name go through the states
+def c10ExMeta : Meta Int Nat := ⟨"grid/../grid/", 3, c10ExLaw⟩
+example : (Meta.setstate c10ExIsLen c10ExIsApm c10ExMeta.getstate).map (fun m => (m.modelDir, m.filters)) =
+    .ok ("grid/../grid/", 3) := by decide
+example : c10ExMeta.law.WF c10ExIsLen c10ExIsApm := by decide
+def c10ExCore : FitCore Int :=
+  ⟨c10ExSource, [1, 2], [3, 4], [5, 6], [1, 0],
+   ["grid_v2_xxxxxxxxxxxxxxxxxxxxxx_101yyyyyyyyyyy", "grid_v2_xxxxxxxxxxxxxxxxxxxxxx_102"], none⟩
+example : (c10ExCore.modelName.map String.length) = [45, 34] := by decide
+example : (FitCore.setstate c10ExCore.getstate).map (fun c => c.modelName) = .ok c10ExCore.modelName := by decide
+-- header frames of the running example are the fitter's metadata
+example : ∀ h', Frame.hdr h' ∈ [Frame.hdr 7, Frame.recd (0, 1003), Frame.recd (2, 1004)] → h' = (exCfg 3 false).hdr :=
+  C10_meta_verbatim (exCfg 3 false) exLines _ (by decide)
+-- options: a fitter whose results depend on `use_memmap`; other options, other file
+def c10ExFitWith (mm : Bool) (s : Nat × Nat) : Nat × Nat := (s.1, (if mm then 200 else 100) + s.2)
+def c10ExCfgWith (o : FitOpts) : FitCfg (Option (Nat × Nat)) (Nat × Nat) Nat (Nat × Nat) :=
+  cfgWith (fun l => match l with | none => .error .eof | some s => .ok s) (fun s => s.2) c10ExFitWith
+    (fun r => (r.1, r.2 - 100)) (fun r => (r.1, r.2 + 1000)) 7 3 o
+example : fitMany (c10ExCfgWith ⟨true, true⟩) exLines = .ok [.hdr 7, .recd (0, 1203), .recd (2, 1204)] := by decide
+example : fitMany (c10ExCfgWith ⟨true, true⟩) exLines ≠ fitMany (c10ExCfgWith ⟨false, true⟩) exLines := by decide
+-- file names with special characters stay distinct
+example : fileNameOf "out/x_".toList ".txt".toList "G010.5:a".toList ≠ fileNameOf "out/x_".toList ".txt".toList "G010.5_a".toList := by
+  decide
+
+end examples2
+
 end SF
